@@ -252,7 +252,7 @@ class Frag:
             prods += [("concat", 3)]
         if k == "arr":
             prods += [("arrcat", 2), ("map", 3)]
-        prods += [("proj", 2), ("match", 2), ("at", 1), ("recget", 1)]
+        prods += [("proj", 2), ("match", 3), ("at", 1), ("recget", 1), ("rowinfer", 2), ("ormatch", 2)]
         if k == "dict":
             subvars = [x for (x, U) in ctx if U[0] == "rec" and U[1] and all(u == T[1] for _, u in U[1])]
             if subvars:
@@ -345,23 +345,61 @@ class Frag:
             return N("proj", [self.gen(ctx, R, size - 1), f], T)
         if p == "match":
             n = r.range(1, 3)
-            rows = tuple((t, self.gen_type(1, False) if r.chance(1, 3) else None) for t in sorted(r.shuffle(TAGS)[:n]))
+            tags = sorted(r.shuffle(TAGS)[:n])
+            rows = []
+            for t in tags:
+                # payload types are often shared, so that alternatives can be grouped in an or-pattern
+                if rows and rows[-1][1] is not None and r.chance(1, 2):
+                    rows.append((t, rows[-1][1]))
+                else:
+                    rows.append((t, self.gen_type(1, False) if r.chance(2, 5) else None))
+            rows = tuple(rows)
             s = self.gen(ctx, ("enum", rows), h)
             default = r.chance(1, 3)
             arms = list(rows)
             if default and len(arms) > 1:
                 arms = arms[:-1]
-            bs = []
+            # group neighbouring rows of the same shape in an or-pattern `('A x) or ('B x) => ..` / `'A or 'B => ..`
+            groups = []
             for t, u in arms:
+                if groups and groups[-1][1] == u and r.chance(1, 2):
+                    groups[-1] = (groups[-1][0] + (t,), u)
+                else:
+                    groups.append(((t,), u))
+            bs = []
+            for ts, u in groups:
+                key = ts[0] if len(ts) == 1 else ts
+                if len(ts) > 1:
+                    self.features.add("or-pattern")
                 if u is None:
-                    bs.append((t, None, self.gen(ctx, T, max(1, h // len(rows)))))
+                    bs.append((key, None, self.gen(ctx, T, max(1, h // len(rows)))))
                 else:
                     x = self.fresh()
                     self.features.add("match-variant-binder")
-                    bs.append((t, x, self.gen(ctx + [(x, u)], T, max(1, h // len(rows)))))
+                    if u == T and r.chance(1, 2):
+                        body = self.consume(ctx, N("var", [x], u), T, max(1, h // len(rows)))
+                    else:
+                        body = self.gen(ctx + [(x, u)], T, max(1, h // len(rows)))
+                    bs.append((key, x, body))
             d = self.gen(ctx, T, max(1, h // len(rows))) if default else None
             self.features.add("match-default" if default else "match")
             return N("match", [s, bs, d], T)
+        if p == "rowinfer":
+            return self.rowinfer(ctx, T, size)
+        if p == "ormatch":
+            # a match whose first arm is an or-pattern binding one variable under two or three different tags;
+            # the body uses the variable at its type
+            U = T if (first_order(T) and T[0] not in ("dyn",) and r.chance(2, 3)) else self.gen_type(1, False)
+            tags = sorted(r.shuffle(TAGS)[:r.range(2, 3)])
+            extra = [t for t in TAGS if t not in tags][:r.range(0, 1)]
+            rows = tuple(sorted([(t, U) for t in tags] + [(t, None) for t in extra]))
+            s0 = self.gen(ctx, ("enum", rows), h)
+            x = self.fresh()
+            body = self.consume(ctx + [(x, U)], N("var", [x], U), T, h) if U == T else self.gen(ctx + [(x, U)], T, h)
+            bs = [(tuple(tags), x, body)] + [(t, None, self.gen(ctx, T, max(1, h // 2))) for t in extra]
+            self.features.add("or-pattern")
+            self.features.add("match-variant-binder")
+            return N("match", [s0, bs, None], T)
         if p == "subvar":
             x = r.choice(subvars)
             self.features.add("record<:dict (variable)")
@@ -439,6 +477,91 @@ class Frag:
                 return N("app", [N("app", [f, self.gen(ctx, ("fun", A, T[1]), h)], ("fun", ("arr", A), T)),
                                  self.gen(ctx, ("arr", A), h)], T)
         raise ValueError(p)
+
+    def consume(self, ctx, v, T, size):
+        """a term of type T that really uses the value of v (of type T) at its type"""
+        r = self.rng
+        k = T[0]
+        if k == "num":
+            return N("prim2", [r.choice(["add", "sub", "mul"]), v, self.gen(ctx, NUM, max(1, size - 1))], T, x=[])
+        if k == "str":
+            return N("prim2", ["concat", v, self.gen(ctx, STR, max(1, size - 1))], T, x=[])
+        if k == "bool":
+            return N("prim1", ["not", v], T, x=[])
+        if k == "arr":
+            return N("prim2", ["arrcat", v, self.gen(ctx, T, max(1, size - 1))], T, x=[T[1]])
+        return v
+
+    def rowinfer(self, ctx, T, size):
+        """`(fun r => BODY) ARG` (or through a let-bound function) with an UNANNOTATED parameter r whose
+        record type the typechecker has to infer from its uses in BODY -- projections (which give r an open
+        row), coercions to a dictionary (std.record.values / has_field / get / fields, by subsumption), in a
+        random order -- before it meets the argument's type."""
+        r = self.rng
+        dict_uses = r.chance(2, 3)
+        U = T if (first_order(T) and T[0] != "dyn" and r.chance(1, 2)) else self.gen_type(1, False)
+        # (two projections of an unannotated parameter followed by a coercion to a dictionary make the real
+        # typechecker panic -- debug assertion in UnifTable::assign_rrows --: mostly one field then)
+        nf = (1 if r.chance(7, 8) else 2) if dict_uses else r.range(1, 3)
+        fs = sorted(r.shuffle(FIELDS)[:nf])
+        if dict_uses:
+            R = ("rec", tuple((f, U) for f in fs))
+        else:
+            R = ("rec", tuple((f, U if i == 0 else self.gen_type(1, False)) for i, f in enumerate(fs)))
+        rn = self.fresh("r")
+        rv = lambda: N("var", [rn], R)
+        if dict_uses:
+            # valid order: every field is projected (once) before the first coercion -- the coercion closes the
+            # row with the fields known so far; the near-miss orders come from the mutant stream
+            kinds = [("proj", f) for f in r.shuffle(fs)] if (nf > 1 or r.chance(3, 4)) else []
+            if kinds and r.chance(7, 8):
+                # (a second coercion of a record whose row tail has been assigned panics as well)
+                kinds += [("vals", None)]
+            else:
+                kinds += [(kd, None) for kd in r.shuffle(["vals", r.choice(["has", "get", "fields", "vals"])])[:r.range(1, 2)]]
+                if not any(kd == "vals" for kd, _ in kinds):
+                    kinds.append(("vals", None))
+        else:
+            kinds = [("proj", r.choice(fs)) for _ in range(r.range(1, 3))]
+        binds = []          # (name, type, term)
+        inner = list(ctx)
+        for kd, pf in kinds:
+            y = self.fresh()
+            if kd == "proj":
+                f, u = pf, dict(R[1])[pf]
+                binds.append((y, u, N("proj", [rv(), f], u)))
+            elif kd == "vals":
+                binds.append((y, ("arr", U), N("prim1", ["recvalues", N("sub", [rv()], ("dict", U))], ("arr", U), x=[U])))
+            elif kd == "fields":
+                binds.append((y, ("arr", STR), N("prim1", ["recfields", N("sub", [rv()], ("dict", U))], ("arr", STR), x=[U])))
+            elif kd == "has":
+                binds.append((y, BOOL, N("prim2", ["rechas", N("str", [r.choice(fs)], STR), N("sub", [rv()], ("dict", U))], BOOL, x=[U])))
+            else:
+                self.err_sources += 1
+                binds.append((y, U, N("prim2", ["recget", N("str", [r.choice(fs)], STR), N("sub", [rv()], ("dict", U))], U, x=[U])))
+            inner.append((y, binds[-1][1]))
+        # an element of the dictionary's values, consumed at the element type
+        vals = [b for b in binds if b[1] == ("arr", U) and b[2].k == "prim1"]
+        if vals:
+            z = self.fresh()
+            self.err_sources += 1
+            binds.append((z, U, N("prim2", ["arrat", N("num", [r.range(0, len(fs)), 1], NUM), N("var", [vals[0][0]], ("arr", U))], U, x=[U])))
+            inner.append((z, U))
+        same = [b for b in binds if b[1] == T]
+        if same and r.chance(3, 4):
+            final = self.consume(inner, N("var", [r.choice(same)[0]], T), T, max(1, size // 3))
+        else:
+            final = self.gen(inner, T, max(1, size // 3))
+        body = final
+        for (y, u, e) in reversed(binds):
+            body = N("let", [y, None, e, body], T)
+        lam = N("lam", [rn, body], ("fun", R, T))
+        arg = self.lit(R, ctx, max(1, size // 3))
+        self.features.add("row-inference:" + ("dict" if dict_uses else "proj"))
+        if r.chance(1, 2):
+            return N("app", [lam, arg], T)
+        f = self.fresh("f")
+        return N("let", [f, None, lam, N("app", [N("var", [f], ("fun", R, T)), arg], T)], T)
 
     # ------------------------------------------------------------------ holes of untyped code
     def hole(self, T, size):
@@ -656,7 +779,12 @@ class Printer:
                 if not first:
                     self.out(", ")
                 first = False
-                self.out("'%s => " % t if x is None else "'%s %s => " % (t, x))
+                if x is None:
+                    self.out(" or ".join("'%s" % t1 for t1 in alts(t)) + " => ")
+                elif isinstance(t, tuple):
+                    self.out(" or ".join("('%s %s)" % (t1, x) for t1 in t) + " => ")
+                else:
+                    self.out("'%s %s => " % (t, x))
                 self.term(b)
             if a[2] is not None:
                 if not first:
@@ -749,7 +877,7 @@ def to_sexp(n):
         return '(proj %s "%s")' % (to_sexp(a[0]), a[1])
     if k == "match":
         bs = "(%s)" % " ".join(('("%s" %s)' % (t, to_sexp(b))) if x is None else '("%s" "%s" %s)' % (t, x, to_sexp(b))
-                               for t, x, b in a[1])
+                               for t, x, b in expand_arms(a[1]))
         if a[2] is not None:
             return "(match %s %s %s)" % (to_sexp(a[0]), bs, to_sexp(a[2]))
         return "(match %s %s)" % (to_sexp(a[0]), bs)
@@ -816,7 +944,7 @@ def to_cert(n):
         return '(aproj %s "%s")' % (to_cert(a[0]), a[1])
     if k == "match":
         bs = "(%s)" % " ".join(('("%s" %s)' % (t, to_cert(b))) if x is None else '("%s" "%s" %s)' % (t, x, to_cert(b))
-                               for t, x, b in a[1])
+                               for t, x, b in expand_arms(a[1]))
         d = (" " + to_cert(a[2])) if a[2] is not None else ""
         return "(amatch %s %s %s%s)" % (to_cert(a[0]), ty_sexp(n.ty), bs, d)
     if k == "prim2":
@@ -863,6 +991,17 @@ def poly_insts(name, tout, rout):
         else:
             out.append(("rows", tuple(rout.get(ks[i + 1:].count("r"), ()))))
     return out
+
+
+def alts(t):
+    """the tags of a match arm: one tag, or the alternatives of an or-pattern (all of the same shape,
+    sharing the payload binder)"""
+    return list(t) if isinstance(t, tuple) else [t]
+
+
+def expand_arms(arms):
+    """or-patterns as the model sees them: one arm per alternative, same body"""
+    return [(t1, x, b) for (t, x, b) in arms for t1 in alts(t)]
 
 
 def gen_program(rng, size, holes=True):
@@ -1120,13 +1259,25 @@ def default_type(t):
         return ("rec", tuple(fs))
     if k in ("enum", "enum-open"):
         rows = []
-        for x, u in t[1]:
+        for i, (x, u) in enumerate(t[1]):
+            if u is not None and u[0] == "any" and ANY_ROW_STRATEGY < 2:
+                # a payload the typechecker left unconstrained (no value of the program inhabits the row):
+                # any type is a valid choice; take a neighbour's, so that an or-pattern arm shared with
+                # that neighbour has one type for its binder
+                order = list(range(i - 1, -1, -1)) + list(range(i + 1, len(t[1])))
+                if ANY_ROW_STRATEGY == 1:
+                    order = list(range(i + 1, len(t[1]))) + list(range(i - 1, -1, -1))
+                near = [t[1][j][1] for j in order if t[1][j][1] is not None and t[1][j][1][0] != "any"]
+                u = near[0] if near else u
             d = None if u is None else default_type(u)
             if u is not None and d is None:
                 return None
             rows.append((x, d))
         return ("enum", tuple(rows))
     return None
+
+
+ANY_ROW_STRATEGY = 0
 
 
 def rigid_type(t, names):
@@ -1419,7 +1570,8 @@ class CertBuilder:
             if want is None:
                 want = self.tc(n, need=False)      # every arm is checked against the type of the whole
             parts = []
-            for t, x, b in a[1]:
+            arms = expand_arms(a[1])       # an or-pattern arm is checked once per alternative
+            for t, x, b in arms:
                 if x is None:
                     parts.append(self.build(b, env, want))
                 else:
@@ -1435,7 +1587,7 @@ class CertBuilder:
                 raise CertError("match without arms")
             w2, cs2 = self.join(n, parts, "match arm")
             bs = "(%s)" % " ".join(('("%s" %s)' % (t, c)) if x is None else '("%s" "%s" %s)' % (t, x, c)
-                                   for (t, x, _), c in zip(a[1], cs2))
+                                   for (t, x, _), c in zip(arms, cs2))
             d = (" " + cs2[-1]) if a[2] is not None else ""
             return "(amatch %s %s %s%s)" % (cs, ty_sexp(w2), bs, d), w2
         if k in ("prim2", "prim1"):
@@ -1485,12 +1637,20 @@ class CertBuilder:
 
 def cert_from_tc(prog, terms, idents):
     """-> (certificate s-expression, None) or (None, reason)"""
+    global ANY_ROW_STRATEGY
+    why = None
     try:
-        cb = CertBuilder(terms, idents)
-        c, T = cb.build(prog["ast"], {}, prog["type"])
-        return cb.coerce(c, T, prog["type"], "the block"), None
-    except CertError as ex:
-        return None, str(ex)
+        for strategy in (0, 1, 2):        # how to choose the payload types the typechecker left unconstrained
+            ANY_ROW_STRATEGY = strategy
+            try:
+                cb = CertBuilder(terms, idents)
+                c, T = cb.build(prog["ast"], {}, prog["type"])
+                return cb.coerce(c, T, prog["type"], "the block"), None
+            except CertError as ex:
+                why = why or str(ex)
+    finally:
+        ANY_ROW_STRATEGY = 0
+    return None, why
 
 
 # ---------------------------------------------------------------------- mutants (still fragment syntax)
@@ -1563,6 +1723,41 @@ def mutate(prog, rng):
                     break
             if done:
                 break
+    # an or-pattern matched by a later alternative whose payload has another kind
+    if not what and rng.chance(1, 2):
+        ms = [m for m in nodes if m.k == "match" and any(isinstance(t, tuple) and x is not None for t, x, _ in m.a[1])]
+        if ms:
+            m = rng.choice(ms)
+            t, x, _ = rng.choice([arm for arm in m.a[1] if isinstance(arm[0], tuple) and arm[1] is not None])
+            pay = dict(m.a[0].ty[1]).get(t[0]) if m.a[0].ty and m.a[0].ty[0] == "enum" else None
+            if pay is not None:
+                m.a[0] = N("variant", [rng.choice(t[1:]), Frag(rng, holes=False).lit(other_type(pay, rng), [], 1)], m.a[0].ty)
+                what = "or-pattern-later-alternative-kind"
+    # the record passed to a function gets one more field, or a field of another kind
+    if not what and rng.chance(1, 3):
+        apps = [a for a in nodes if a.k == "app" and isinstance(a.a[1], N) and a.a[1].k == "rec"]
+        if apps:
+            rec = rng.choice(apps).a[1]
+            used = [f for f, _ in rec.a[0]]
+            have = [e.ty for _, e in rec.a[0] if e.ty]
+            T0 = have[0] if have else NUM
+            if rec.a[0] and rng.chance(1, 3):
+                i = rng.below(len(rec.a[0]))
+                rec.a[0][i] = (rec.a[0][i][0], Frag(rng, holes=False).lit(other_type(T0, rng), [], 1))
+                what = "argument-record-field-kind"
+            else:
+                new = rng.choice([f for f in ["ab", "zz", "fe"] + FIELDS if f not in used])
+                rec.a[0].append((new, Frag(rng, holes=False).lit(other_type(T0, rng), [], 1)))
+                rec.a[0].sort(key=lambda fe: fe[0])
+                what = "argument-record-extra-field"
+    # the order of two neighbouring let-bindings (inference depends on the order of the uses of a variable)
+    if not what and rng.chance(1, 8):
+        chains = [l for l in nodes if l.k == "let" and isinstance(l.a[3], N) and l.a[3].k == "let" and l.a[1] is None and l.a[3].a[1] is None]
+        if chains:
+            l = rng.choice(chains)
+            inner = l.a[3]
+            l.a[0], l.a[2], inner.a[0], inner.a[2] = inner.a[0], inner.a[2], l.a[0], l.a[2]
+            what = "swap-let-bindings"
     for _ in range(20):
         if what:
             break
